@@ -248,7 +248,7 @@ def cases(draw):
             npts = draw(st.integers(2, 12))
             for _ in range(npts):
                 pts.append([cx + draw(st.floats(-1e-5, 1e-5)), cy + draw(st.floats(-1e-5, 1e-5))])
-            deep = draw(st.integers(12, 20))
+            deep = draw(st.one_of(st.integers(12, 20), st.integers(21, 27)))      # quadkeys of more than 23 digits too
         elif mode == "cluster":
             cx, cy = draw(st.floats(-170, 170)), draw(st.floats(-70, 70))
             for _ in range(npts):
